@@ -1,1 +1,141 @@
+/- C04 — no operation history corrupts an object, breaks the allocator contract or leaks.
+   Theorems about the life-cycle / ledger model `Mpir/Model/Life.lean` (mpz_init, mpz_init2, mpz_realloc2,
+   mpz_set, mpz_clear).  The invariant `Inv` is defined in `MpirProofs/Lemmas/Life.lean`:
+     breaches = 0; every live object owns the ledger block `(blk, alloc)`, `1 ≤ alloc`,
+     `limbsOf val ≤ alloc`, `blk < next`; ledger ids pairwise distinct and `< next`; distinct slots own
+     distinct blocks; every ledger entry is owned by a live object (no leak). -/
 import Mpir.Model.Life
+import MpirProofs.Lemmas.Life
+namespace Mpir.Life
+
+/-- The initial state (`n` uninitialised slots, empty ledger) satisfies the invariant. -/
+theorem inv_init (n : Nat) : Inv (init n) where
+  breaches := rfl
+  live := fun k o h => by rw [getObj_init] at h; cases h
+  distinct := List.Pairwise.nil
+  below := fun p hp => by cases hp
+  owners := fun j k oj ok hj _ _ => by rw [getObj_init] at hj; cases hj
+  noleak := fun p hp => by cases hp
+
+example : Inv (init 6) := inv_init 6
+example : (init 6).objs.length = 6 ∧ getObj (init 6) 3 = none := by decide
+
+/-- Every operation preserves the invariant — including operations on slots that do not exist, on slots
+that are not initialised (`realloc2`/`set`/`clear`), and double initialisation: the model ignores those. -/
+theorem inv_step (s : State) (op : Op) : Inv s → Inv (step s op) := by
+  intro h
+  cases op with
+  | init k => exact inv_step_init h k
+  | init2 k bits => exact inv_step_init2 h k bits
+  | realloc2 k bits => exact inv_step_realloc2 h k bits
+  | set k v => exact inv_step_set h k v
+  | clear k => exact inv_step_clear h k
+
+-- non-vacuity: a step that really allocates, and one that really reallocates and truncates
+example : (step (init 2) (.init2 1 200)).ledger = [(0, 4)] := by decide
+example : Inv (step (step (init 2) (.init2 1 200)) (.realloc2 1 0)) :=
+  inv_step _ _ (inv_step _ _ (inv_init 2))
+example : (step (step (init 2) (.init2 1 200)) (.realloc2 1 0)).ledger = [(1, 1)] := by decide
+
+/-- The invariant holds along every history (induction over the list of operations). -/
+theorem inv_run {s : State} (ops : List Op) : Inv s → Inv (run s ops) := by
+  intro h
+  unfold run
+  induction ops generalizing s with
+  | nil => exact h
+  | cons op ops ih => exact ih (inv_step s op h)
+
+example : Inv (run (init 3) [.init 0, .set 0 (2 ^ 130), .init2 1 64, .realloc2 0 64, .clear 1, .clear 7, .init 9]) :=
+  inv_run _ (inv_init 3)
+
+/-- Allocator contract: along every history from the initial state no `realloc`/`free` is ever announced
+with a size other than the block's current size (the ledger's), and never for an unknown block. -/
+theorem no_breach (n : Nat) (ops : List Op) : (run (init n) ops).breaches = 0 :=
+  (inv_run ops (inv_init n)).breaches
+
+-- non-vacuity: the breach counter is live — a release announced with a wrong size is counted
+example : (ledgerRelease (step (init 1) (.init2 0 200)) 0 3).breaches = 1 := by decide
+example : (run (init 2) [.init 0, .init2 1 500, .realloc2 1 10, .clear 0, .clear 1]).breaches = 0 :=
+  no_breach 2 _
+
+/-- No leak: once every slot has been cleared the ledger holds no block, and clearing breached nothing. -/
+theorem clearAll_empties_ledger {s : State} : Inv s → (clearAll s).ledger = [] ∧ (clearAll s).breaches = 0 := by
+  intro h
+  have hc : Inv (clearAll s) := inv_clearList h _
+  refine ⟨?_, hc.breaches⟩
+  cases hl : (clearAll s).ledger with
+  | nil => rfl
+  | cons p l =>
+      obtain ⟨k, o, hk, _⟩ := hc.noleak p (by rw [hl]; exact List.mem_cons_self)
+      rw [getObj_clearAll] at hk; cases hk
+
+example : (run (init 3) [.init 0, .init2 2 300, .realloc2 2 1000]).ledger = [(2, 16), (0, 1)] := by decide
+example : (clearAll (run (init 3) [.init 0, .init2 2 300, .realloc2 2 1000])).ledger = [] :=
+  (clearAll_empties_ledger (inv_run _ (inv_init 3))).1
+
+/-- `mpz_realloc2` never corrupts a value: afterwards the object has exactly `bitsToLimbs bits` limbs and
+its value is unchanged when it still fits, and `0` when it does not; every other slot is untouched. -/
+theorem realloc2_value (s : State) (k bits : Nat) (o : Obj) (h : getObj s k = some o) :
+    (∃ o', getObj (step s (.realloc2 k bits)) k = some o' ∧
+        o'.alloc = bitsToLimbs bits ∧
+        o'.val = if limbsOf o.val ≤ bitsToLimbs bits then o.val else 0) ∧
+    ∀ j, j ≠ k → getObj (step s (.realloc2 k bits)) j = getObj s j := by
+  simp only [step, h]
+  refine ⟨⟨_, by rw [getObj_reallocObj h, if_pos rfl], rfl, ?_⟩, ?_⟩
+  · simp only []
+    split <;> split <;> first | rfl | omega
+  · intro j hj
+    rw [getObj_reallocObj h, if_neg hj]
+
+-- non-vacuity (`decide +kernel`: `natLimbs` is a well-founded recursion): a 2-limb value survives a
+-- shrink to 2 limbs and is cleared, not mangled, by a shrink to 1 limb; the neighbour slot is untouched
+example : (getObj (run (init 2) [.init 0, .init 1, .set 1 7, .set 0 (2 ^ 100), .realloc2 0 128]) 0).map
+    (fun o => (o.alloc, o.val)) = some (2, 2 ^ 100) := by decide +kernel
+example : (getObj (run (init 2) [.init 0, .init 1, .set 1 7, .set 0 (2 ^ 100), .realloc2 0 64]) 0).map
+    (fun o => (o.alloc, o.val)) = some (1, 0) := by decide +kernel
+example : (getObj (run (init 2) [.init 0, .init 1, .set 1 7, .set 0 (2 ^ 100), .realloc2 0 64]) 1).map
+    (fun o => (o.alloc, o.val)) = some (1, 7) := by decide +kernel
+
+/-- `mpz_set` stores exactly the value it is given, whatever the allocation history of the destination:
+afterwards the value is `v` and fits the allocation; the allocation is untouched when `v` already fitted
+(and is exactly `max (limbsOf v) 1` otherwise); every other slot is untouched. -/
+theorem set_value (s : State) (k : Nat) (v : Int) (o : Obj) (h : getObj s k = some o) :
+    (∃ o', getObj (step s (.set k v)) k = some o' ∧
+        o'.val = v ∧ limbsOf v ≤ o'.alloc ∧
+        (limbsOf v ≤ o.alloc → o'.alloc = o.alloc) ∧
+        (o.alloc < limbsOf v → o'.alloc = limbsOf v)) ∧
+    ∀ j, j ≠ k → getObj (step s (.set k v)) j = getObj s j := by
+  have hk := lt_of_getObj_some h
+  simp only [step, h]
+  split
+  · rename_i hgt
+    have hk' : k < (reallocObj s k o (max (limbsOf v) 1)).objs.length := by
+      have := getObj_reallocObj h (max (limbsOf v) 1) k
+      rw [if_pos rfl] at this
+      exact lt_of_getObj_some this
+    rw [getObj_reallocObj h, if_pos rfl]
+    simp only []
+    refine ⟨⟨_, by rw [getObj_setObj hk', if_pos rfl], rfl, ?_, ?_, ?_⟩, ?_⟩
+    · simp only []; omega
+    · intro hle; omega
+    · intro _; simp only []; omega
+    · intro j hj
+      rw [getObj_setObj hk', if_neg hj, getObj_reallocObj h, if_neg hj]
+  · rename_i hle
+    refine ⟨⟨_, by rw [getObj_setObj hk, if_pos rfl], rfl, ?_, ?_, ?_⟩, ?_⟩
+    · simp only []; omega
+    · intro _; rfl
+    · intro hlt; omega
+    · intro j hj
+      rw [getObj_setObj hk, if_neg hj]
+
+-- non-vacuity: growing set (1 → 2 limbs), then a smaller value keeps the larger allocation
+example : (getObj (run (init 1) [.init 0, .set 0 (-(2 ^ 100))]) 0).map
+    (fun o => (o.alloc, o.val)) = some (2, -(2 ^ 100)) := by decide +kernel
+example : (getObj (run (init 1) [.init 0, .set 0 (-(2 ^ 100)), .set 0 5]) 0).map
+    (fun o => (o.alloc, o.val)) = some (2, 5) := by decide +kernel
+-- the same value is reached through a different allocation history
+example : (getObj (run (init 1) [.init2 0 1000, .realloc2 0 1, .set 0 5]) 0).map
+    (fun o => (o.alloc, o.val)) = some (1, 5) := by decide +kernel
+
+end Mpir.Life
